@@ -65,15 +65,15 @@ def isDigit (c : Nat) : Bool := 48 ≤ c && c ≤ 57
 
 def parseDigits (s : Bytes) : Nat := s.foldl (fun acc c => acc * 10 + (c - 48)) 0
 
+def atoiDigits (ds : Bytes) : Option Nat :=
+  if ds.isEmpty || !ds.all isDigit then none else some (parseDigits ds)
+
 /-- `strconv.Atoi` without the 64-bit range check (an out-of-range value fails every later range check
 of the callers, with the same error class) -/
-def atoi (s : Bytes) : Option Int :=
-  let (neg, ds) := match s with
-    | 45 :: r => (true, r)
-    | 43 :: r => (false, r)
-    | r => (false, r)
-  if ds.isEmpty || !ds.all isDigit then none
-  else some (if neg then - (parseDigits ds : Int) else (parseDigits ds : Int))
+def atoi : Bytes → Option Int
+  | 45 :: r => (atoiDigits r).map fun n => -(n : Int)
+  | 43 :: r => (atoiDigits r).map fun n => (n : Int)
+  | r => (atoiDigits r).map fun n => (n : Int)
 
 def hexDigit (n : Nat) : Nat := if n < 10 then 48 + n else 87 + n
 
@@ -622,10 +622,13 @@ def fieldBytes (tv : Tag × Bytes) : Bytes := 9 :: tv.1.1 :: tv.1.2 :: 58 :: tv.
 
 def opt (t : String) (v : Bytes) : Tags := if v = [] then [] else [(TAG t, v)]
 
+def uriTags : Option (Nat × Bytes) → Tags
+  | some (_, u) => [(TAG "UR", u)]
+  | none => []
+
 def refTags (name : Bytes) (d : RefD) : Tags :=
   [(TAG "SN", name), (TAG "LN", dec d.len)] ++ (if d.md5 = [] then [] else [(TAG "M5", hexEnc d.md5)]) ++
-    opt "AS" d.asm ++ opt "SP" d.sp ++
-    (match d.uri with | some (_, u) => [(TAG "UR", u)] | none => []) ++ d.other
+    opt "AS" d.asm ++ opt "SP" d.sp ++ uriTags d.uri ++ d.other
 
 def rgTags (name : Bytes) (d : RgD) : Tags :=
   [(TAG "ID", name)] ++ opt "CN" d.cn ++ opt "DS" d.ds ++ opt "DT" d.dt ++ opt "FO" d.fo ++ opt "KS" d.ks ++
@@ -654,8 +657,13 @@ def items {α : Type} (k : KW α) (h : Nat) : List (Int × Bytes × α) :=
   | some t => t.items.filterMap fun o => (k.heap[o]?).map fun x => (x.id, x.name, x.dat)
   | none => []
 
+/-- the identity of the *url.URL is not exposed -/
+def normRef (d : RefD) : RefD := { d with uri := d.uri.map fun u => (0, u.2) }
+
 def view (w : World) (h : Nat) : View :=
-  { f := (w.hdrs[h]?).getD {}, refs := items w.refs h, rgs := items w.rgs h, pgs := items w.pgs h }
+  { f := (w.hdrs[h]?).getD {},
+    refs := (items w.refs h).map fun x => (x.1, x.2.1, normRef x.2.2),
+    rgs := items w.rgs h, pgs := items w.pgs h }
 
 def marshalView (v : View) : Bytes :=
   (if v.f.version = [] then [] else line "@HD" (hdTags v.f)) ++
